@@ -9,6 +9,8 @@ import Driver.WtoH
 import Driver.NumH
 import Driver.LinH
 import Driver.EnvH
+import Driver.InterH
+import Driver.IDomH
 import Driver.ProgH
 import Driver.ExactH
 import Driver.XformH
@@ -42,6 +44,8 @@ def dispatch (comp op : String) (args res : List Sexp) : Verdict :=
   | "lin" => handleLin op args res
   | "env" => handleEnv op args res
   | "pset" => handlePSet op args res
+  | "inter" => handleInter op args res
+  | "idom" => handleIDom op args res
   | "prog" => handleProg op args res
   | "exact" => handleExact op args res
   | "xf" => handleXf op args res
